@@ -184,10 +184,12 @@ CLAIMED["C10"] = {
             "access to cache/reminders/reminder_keys lies under the lock (method-level `with lock` or lock-holding "
             "callers only). The run() algorithm itself (wrap detection, offsets, disappearing/reappearing devices, "
             "cache_clear) is checked by a bounded enumeration of snapshot histories against a reference model "
-            "(labelled bounded; a proof of run() is work in progress).",
-    "note": "bounded stand-in for _WrapNumbers.run/_remove_dead_reminders (nested dict/defaultdict/set state); "
-            "threading.Lock mutual exclusion assumed.",
+            "(labelled bounded). Claimed as exploration, not proof: no function of this property is under a deductive "
+            "contract.",
+    "note": "bounded stand-in for _WrapNumbers.run/_remove_dead_reminders (nested dict/defaultdict/set state is outside the "
+            "VC generator); threading.Lock mutual exclusion assumed.",
     "ref": "DESIGN.md section 5 (C10)",
+    "category": "exploration",
 }
 
 CLAIMED["C11"] = {
@@ -289,7 +291,7 @@ def main():
                 "evidence_file": f"evidence/{p}.json",
                 "replay_cmd_template": "cat {path}",
                 "engine": "pyvc",
-                "level_claimed": {"category": "proof", "text": e["text"], "design_ref": e["ref"]},
+                "level_claimed": {"category": e.get("category", "proof"), "text": e["text"], "design_ref": e["ref"]},
                 "level_note": e["note"],
                 "technique": e.get("technique", TECH),
             })
@@ -302,7 +304,11 @@ def main():
                   "source_commits": [], "add_only": True},
         "engines": [{"name": "pyvc", "path": "vc/", "serves_properties": sorted(CLAIMED),
                      "kind_free_text": "verification-condition generator for a python subset run on the real ASTs; "
-                                       "SMT-LIB2 emitted once, discharged by cvc5 and z3; counter-models replayed on the real code"}],
+                                       "SMT-LIB2 emitted once, discharged by cvc5 and z3; counter-models replayed on the real code"},
+                    {"name": "cvc", "path": "vc/cvc.py", "serves_properties": ["C17", "C18"],
+                     "kind_free_text": "verification-condition generator for the real C functions of the extension over clang's "
+                                       "macro-expanded JSON AST; fixed-width bit-vectors and arrays, z3 re-checked by cvc5; "
+                                       "contracts for the CPython C-API, libc and system calls; ghost reference ownership"}],
         "checks": checks,
         "notes": "contract-based deductive verification of the real code; see DESIGN.md. Exit codes of ./check: 0 held, "
                  "1 violation, 2 undecided, 3 checker error.",
